@@ -113,4 +113,14 @@ PROPS = {
         specs=[],
         bounded=["bounded.c06_bursts"],
     ),
+    "C01": dict(
+        level="exploration",
+        specs=[],
+        bounded=["bounded.c01_delivery"],
+    ),
+    "C17": dict(
+        level="exploration",
+        specs=[],
+        bounded=["bounded.c17_purity"],
+    ),
 }
